@@ -19,6 +19,7 @@ pub fn opts() -> GenOpts {
     o.custom_help = true;
     o.pos_and_cmd = true;
     o.catch = true;
+    o.adjacent_cmds = true;
     o
 }
 
